@@ -6,10 +6,13 @@ package h
 import (
 	"errors"
 	"fmt"
+	"maps"
+	"slices"
 	"sort"
 	"strconv"
 	"strings"
 	"sync"
+	"sync/atomic"
 
 	"verifh/verif"
 )
@@ -60,7 +63,7 @@ func langRecover(n int) (r string) {
 }
 
 // LangCases is the number of cases of H_Lang.
-const LangCases = 27
+const LangCases = 30
 
 func H_Lang(k int) {
 	x := verif.IntRange(0, 5)
@@ -257,6 +260,28 @@ func H_Lang(k int) {
 		n := 0
 		m.Range(func(k, v any) bool { n++; return true })
 		verif.Obs("r", fmt.Sprint(v, ok, ok2, a, loaded, b, loaded2, n))
+	case 27:
+		m := map[string]int{"a": x, "b": 2}
+		c := maps.Clone(m)
+		c["a"] = 9
+		var nilm map[string]int
+		keys := slices.Sorted(maps.Keys(c))
+		verif.Obs("r", fmt.Sprint(m["a"], c["a"], len(c), maps.Clone(nilm) == nil, keys))
+	case 28:
+		var p atomic.Pointer[langSq]
+		old := p.Load()
+		p.Store(&langSq{x})
+		sw := p.CompareAndSwap(old, &langSq{1})
+		cur := p.Load()
+		prev := p.Swap(nil)
+		verif.Obs("r", fmt.Sprint(old == nil, sw, cur.s, prev.s, p.Load() == nil))
+	case 29:
+		calls := 0
+		f := sync.OnceValue(func() int { calls++; return x * 2 })
+		g := sync.OnceFunc(func() { calls += 10 })
+		g()
+		g()
+		verif.Obs("r", fmt.Sprint(f(), f(), calls))
 	}
 	verif.Cover("lang-case")
 }
